@@ -44,15 +44,23 @@ def reset_process_caches():
     import linecache
     import typing
 
-    from adaptix._internal.code_tools import compiler
-    import importlib
-
-    nt = importlib.import_module("adaptix._internal.type_tools.normalize_type")
-    nt._cached_normalize.cache_clear()
-    for cleanup in typing._cleanups:
+    # every functools cache living at module level of the library (found by scanning, so a renamed or added cache is reset too)
+    for name, mod in list(sys.modules.items()):
+        if name == "adaptix" or name.startswith("adaptix."):
+            for obj in list(vars(mod).values()):
+                clear = getattr(obj, "cache_clear", None)
+                if callable(clear) and not isinstance(obj, type):
+                    try:
+                        clear()
+                    except Exception:  # noqa: BLE001, S110
+                        pass
+    for cleanup in getattr(typing, "_cleanups", ()):
         cleanup()
-    counter = compiler._counter
-    counter._name_to_idx.clear()
+    try:
+        from adaptix._internal.code_tools import compiler
+        compiler._counter._name_to_idx.clear()      # unique-file-name counter: only affects names of generated files
+    except Exception:  # noqa: BLE001, S110
+        pass
     linecache.clearcache()
 
 
